@@ -105,8 +105,19 @@ def spec_of(case, order, drop=None, full_order=None):
                 gases.append([mol, ['array', [float(v) for v in np.geomspace(ab, ab * 1e-2, N)]]])
     if 'hm' in (full_order or order):
         gases += [['H', ['const', 1e-3]], ['e-', ['const', 1e-7]]]
-    return {'kind': 'transmission', 'N': case['N'], 'T': case.get('T', ['dec']), 'gases': gases,
+    spec = {'kind': 'transmission', 'N': case['N'], 'T': case.get('T', ['dec']), 'gases': gases,
             'contribs': [contrib_spec(c, case['N']) for c in order]}
+    if case.get('chem') == 'file-partial':
+        # the same species from a tabulated composition that lists 60 % of the atmosphere only
+        names = [m_ for m_ in MOLS if m_ in case['species'] and m_ != drop]
+        vals = [ab for m_, ab in zip(MOLS, case['abund']) if m_ in case['species'] and m_ != drop]
+        names += ['H2', 'He']
+        vals += [0.5, 0.1]
+        if 'hm' in (full_order or order):
+            names += ['H', 'e-']
+            vals += [1e-3, 1e-7]
+        spec['chemfile'] = {'gases': names, 'values': vals}
+    return spec
 
 
 def satur(taus):
@@ -179,6 +190,22 @@ def case_fn(case):
                 type(e).__name__, call, calls.index(call), tb.name), exc=repr(e), first_call=calls[0])
             return r
         same_list(call)
+    # the three entry points given the same request and the same cut-off flag work on the same grid (else their
+    # results cannot be composed), whatever the flag
+    req_ = np.array(WN[1:3])
+    for cut_ in (True, False):
+        try:
+            ga = np.asarray(m.model(wngrid=req_, cutoff_grid=cut_)[0], float)
+            gb = np.asarray(m.model_contrib(wngrid=req_, cutoff_grid=cut_)[0], float)
+            gc_, fdd = m.model_full_contrib(wngrid=req_, cutoff_grid=cut_)
+            gc_ = np.asarray(gc_, float)
+            shp = [np.asarray(x[1]).shape for v_ in fdd.values() for x in v_]
+            r.check(ga.shape == gb.shape == gc_.shape and bool(np.all(ga == gb) and np.all(ga == gc_)) and
+                    all(sh == ga.shape for sh in shp), 'entry-points-same-grid', 'entry-grid/cutoff=%s' % cut_,
+                    model=ga, contrib=gb, full=gc_, component_shapes=shp)
+        except Exception as e:
+            r.check(False, 'no-exception', 'exception/%s/entry-grid/cutoff=%s' % (type(e).__name__, cut_), exc=repr(e))
+    same_list('requests')
     g2, d2, t2, _ = m.model()
     r.eq(np.array(t2, float), res['model'][2], 'model-repeatable-after-contrib-calls', 'repeat/trans', rtol=0, atol=0)
     r.eq(np.array(d2, float), res['model'][1], 'model-repeatable-after-contrib-calls', 'repeat/depth', rtol=0, atol=0)
@@ -353,6 +380,8 @@ def explore(ctx):
             core.product_cases(small, core=['order', 'hist', 'mag', 'species'], d=3)
     base = dict((k, v[0]) for k, v in DIMS.items() if k != 'order')
     cases += [dict(base, order=o, opmode='ktables', hist=h) for o in dims['order'] for h in ('mcf', 'late-cfm')]
+    cases += [dict(base, order=o, chem='file-partial', hist=h, abund=ab) for o in orders(2) for h in ('mcf', 'fcm')
+              for ab in (DIMS['abund'][0], DIMS['abund'][1])]
     seen, out = set(), []
     for c in cases:
         k = json.dumps(c, sort_keys=True)
